@@ -12,6 +12,7 @@ import (
 	_ "verif/props/c07"
 	_ "verif/props/c10"
 	_ "verif/props/c11"
+	_ "verif/props/c12"
 	_ "verif/props/c17"
 	_ "verif/props/c18"
 )
